@@ -16,7 +16,6 @@ import hashlib
 import os
 import re
 import shutil
-import sys
 from pathlib import Path
 
 from .. import common
@@ -375,6 +374,3 @@ def replay(data):
 	finally:
 		shutil.rmtree(scratch, ignore_errors=True)
 
-
-if __name__ == '__main__':
-	sys.exit(0)
